@@ -238,18 +238,29 @@ where
         3 => world.setup::<WriteStorage<C>>(),
         4 => {
             let mut d = DispatcherBuilder::new()
+                .with_pool(setup_pool())
                 .with(SysW::<C>(std::marker::PhantomData), "w", &[])
                 .build();
             d.setup(world);
         }
         5 => {
             let mut d = DispatcherBuilder::new()
+                .with_pool(setup_pool())
                 .with(SysR::<C>(std::marker::PhantomData), "r", &[])
                 .build();
             d.setup(world);
         }
         _ => world.exec(|_: ReadStorage<C>| ()),
     }
+}
+
+thread_local! {
+    static SETUP_POOL: Arc<specs::rayon::ThreadPool> = Arc::new(specs::rayon::ThreadPoolBuilder::new().num_threads(1).build().expect("pool"));
+}
+
+/// One shared single-thread pool: a dispatcher built without a pool spawns one thread per core.
+fn setup_pool() -> Arc<specs::rayon::ThreadPool> {
+    SETUP_POOL.with(|p| p.clone())
 }
 
 fn builder_with<'a, C: ZooComp>(b: EntityBuilder<'a>, payload: u32) -> (EntityBuilder<'a>, Ident) {
